@@ -10,6 +10,10 @@
    (`run` over a schedule = list of thread numbers): sequential consistency is ASSUMED here — the
    Rust uses Release stores, Acquire loads and SeqCst compare-exchange; weaker-than-SC behaviours
    of the hardware are outside the model.
+   The traced runs of the correspondence check are serialised by the harness (one thread between
+   two gates, or a lock around each atomic operation): there the harness ENFORCES this assumption,
+   and it takes each hooked operation to be atomic.  Only the untraced stress / hammer stages run
+   the code with the real memory ordering of the machine (x86-64, TSO).
 
    `nlnk` is a GHOST field: the number of levels at which the node has been published by a
    successful `cas_next`.  It is written by `cas_next` and never read by the control flow of any
